@@ -16,7 +16,7 @@ CONSTANTS
   CurWBufs <- WB_Cur
   AppendModes = {FALSE}
   OpenOpts <- Opts_Mid
-  OpenPaths = {"f"}
+  OpenPaths = {"f", "d"}
   OpenData = {"read_at", "write_at", "metadata", "set_len"}
   NsInits = {"f"}
   NsOps <- Ns_Narrow
